@@ -48,17 +48,21 @@ def inline_deps(t):
 def dep_universe(ctx, rng, viol):
     """every container around derived types at either argument position and at depth 1..3: dependencies() is
     exactly the set of derived types occurring in the type expression; model vs real on name/inline/deps"""
-    from corpus import mk_struct, mk_field
-    defs = [mk_struct("Dx", "named", [mk_field("a", ("leaf", "u8"))]), mk_struct("Dy", "named", [mk_field("b", ("leaf", "bool"))]),
+    from corpus import mk_struct, mk_field, mk_enum, mk_variant
+    defs = [mk_enum("De", [mk_variant("Red", "unit"), mk_variant("Green", "unit")], as_key=True),
+            mk_struct("Dx", "named", [mk_field("a", ("leaf", "u8"))]), mk_struct("Dy", "named", [mk_field("b", ("leaf", "bool"))]),
             mk_struct("Dz", "tuple", [mk_field("_0", ("leaf", "String"))]),
             mk_struct("Dw", "named", [mk_field("t", ("param", 0))], params=[("T", None)])]
     nx, ny, nz = ("named", "Dx", []), ("named", "Dy", []), ("named", "Dz", [])
     nw = ("named", "Dw", [ny])
+    ne = ("named", "De", [])
     base = [nx, nw]
     d1 = []
     for t in base:
         d1 += unary(t)
-    d1 += [("result", nx, ny), ("tuple", [nx, ny, nz]), ("map", ("leaf", "String"), nw, "BTreeMap"), ("named", "Dw", [("vec", nz)])]
+    d1 += [("result", nx, ny), ("tuple", [nx, ny, nz]), ("map", ("leaf", "String"), nw, "BTreeMap"), ("named", "Dw", [("vec", nz)]),
+           # maps keyed by a derived (unit) enum: the key type is a dependency by name, and is inlined by inline()
+           ("map", ne, ("leaf", "u32"), "HashMap"), ("map", ne, nx, "BTreeMap")]
     d2 = []
     for t in d1:
         # the other side of every binary constructor holds a leaf: a missing visit cannot be masked
@@ -93,6 +97,17 @@ def dep_universe(ctx, rng, viol):
                 if res["q"][i]["decl"].startswith("\x00"):
                     continue     # tuples (and what contains them) cannot be inlined: inline() panics, documented
                 want = inline_deps(t)
+            if q[1][0] == "I":
+                # the inline text of a field names only types that are reported as dependencies
+                import re as _re
+                text = res["q"][i]["decl"]
+                named_there = {d0["ident"] for d0 in defs if _re.search(r"(?<![A-Za-z0-9_\"])%s(?![A-Za-z0-9_\"])" % d0["ident"], text.split("=", 1)[1])}
+                if not named_there <= set(real):
+                    bad += 1
+                    viol.append(dict(kind="property-violated", what="the inlined text of a library type names a type that is not among the dependencies",
+                                     field_type=C.rust_ty(t), host=C.to_rust([h for h in hosts if h["ident"] == q[1]][0]), declaration=text,
+                                     dependencies=real, named_in_the_text=sorted(named_there)))
+                    continue
             if real != sorted(want):
                 bad += 1
                 viol.append(dict(kind="property-violated", what="a library type does not contribute exactly its type arguments as dependencies",
